@@ -326,6 +326,32 @@ def tla_trace(kind, mode, ops, old=""):
     return {"kind": kind, "mode": mode, "ops": out, "old": [[code, 0, 1]] if old else []}
 
 
+_STRESSED = None
+
+
+def _stress_atoms(ver):
+    from ase import units
+    from ase.calculators.calculator import Calculator, all_changes
+
+    global _STRESSED
+    if _STRESSED is None:   # one class for all (a class per call makes interpreter shutdown quadratic)
+        class Stressed(Calculator):
+            implemented_properties = ("energy", "stress")
+
+            def __init__(self, ver):
+                super().__init__()
+                self.ver = ver
+
+            def calculate(self, atoms=None, properties=("energy",), system_changes=all_changes):
+                super().calculate(atoms, properties, system_changes)
+                self.results = {"energy": 0.0, "stress": np.array([10.0 * self.ver + j for j in range(1, 7)]) * units.GPa}
+
+        _STRESSED = Stressed
+    a = Atoms("Cu", positions=[[0.0, 0.0, 0.0]], cell=[4.0, 4.0, 4.0], pbc=True)
+    a.calc = _STRESSED(ver)
+    return a
+
+
 def logger_fields(rep, tier):
     """LoggerFields.tla: every history of add_field / remove_fields calls enumerated by TLC is replayed on a real
     Logger; the header must name, and a row must hold a value of, exactly the columns the specification expects."""
@@ -353,7 +379,11 @@ def logger_fields(rep, tier):
             for op, arg in case["hist"]:
                 if op == "add":
                     ver += 1
-                    if arg["arr"]:
+                    if arg["stress"]:
+                        # the shipped convenience call; the stress of these atoms is (10 ver + j) GPa in Voigt component j
+                        mask = [j + 1 in arg["comps"] for j in range(6)]
+                        lg.add_stress_fields(_stress_atoms(ver), include_ideal_gas=bool(ver % 2), mask=mask if (len(arg["comps"]) < 6 or ver % 2) else None)
+                    elif arg["arr"]:
                         names = list(arg["n"]) if ver % 2 else tuple(arg["n"])
                         lg.add_field(names, (lambda v=ver, k=len(arg["n"]): [10.0 * v + i + 1 for i in range(k)]), " ".join(["{:8.1f}"] * len(arg["n"])), is_array=True)
                     else:
@@ -364,8 +394,10 @@ def logger_fields(rep, tier):
             lg()
         except Exception as ex:  # noqa: BLE001
             rep.violation(f"logger-fields:raise:{type(ex).__name__}", f"configuring a logger with {case['hist']} and writing header + row raised {ex!r}", {"case": case})
+            lg.close()
             continue
         lines = buf.getvalue().split("\n")
+        lg.close()   # (every text observer registers itself with atexit and lives until it is closed: keep that list short)
         want_h = [c["name"] for c in case["columns"]]
         want_r = [10.0 * c["ver"] + c["comp"] for c in case["columns"]]
         got_h = lines[0].split()
@@ -457,6 +489,7 @@ def header_format(rep, tier):
             lg.write_header()
             lg()
             lines = buf.getvalue().split("\n")
+            lg.close()
             if lines[0] != want.format("Nm") or lines[1] != fmt.format(sample[c["type"]]):
                 rep.violation("header-format:logger", f"a Logger with one field of format {fmt!r} writes {lines[:2]}; expected header {want.format('Nm')!r} over {fmt.format(sample[c['type']])!r}", {"case": case, "text": buf.getvalue()})
     if n and not nrendered:
@@ -543,6 +576,11 @@ def observer_ownership(rep, tier):
                     if obs[o].file is not files[st["file"][o]]:
                         rep.violation("observers:wrong-handle", f"observer ownership: after {hist} observer {o} does not hold handle {st['file'][o]}", {"hist": hist})
                         break
+        for o in obs.values():   # (judged above; every text observer stays registered with atexit until it is closed)
+            try:
+                o.close()
+            except Exception:  # noqa: BLE001
+                pass
         for f in files.values():
             try:
                 f.close()
